@@ -90,8 +90,14 @@ pub fn res_value(r: Result<Value, String>, code: u32) -> Value {
 }
 
 pub fn emit_op(prog: &str, hist: usize, step: usize, op: &Value, proxy_res: Value, raw_res: Value, proxy_view: Value, raw_view: Value, same_addr: bool) {
-    rt::emit(json!({"ev":"MtOp","prog":prog,"hist":hist,"step":step,"op":op,"proxy":{"res":proxy_res,"view":proxy_view},
+    rt::emit(json!({"ev":"MtOp","prog":prog,"hist":hist,"step":step,"op":op,"panic":"","proxy":{"res":proxy_res,"view":proxy_view},
         "raw":{"res":raw_res,"view":raw_view},"same_addr":same_addr}));
+}
+
+/// Code under test panicked during operation `step` of a history (the rest of the history is not run).
+pub fn emit_panic(prog: &str, hist: usize, step: usize, op: &Value, msg: &str) {
+    rt::emit(json!({"ev":"MtOp","prog":prog,"hist":hist,"step":step,"op":op,"panic":msg,
+        "proxy":{"res":{"ok":false,"kind":"panic"},"view":{}},"raw":{"res":{"ok":false,"kind":"panic"},"view":{}},"same_addr":false}));
 }
 
 pub fn raw_query(app: &RawApp, contract: &Addr, doc: &str) -> Result<Value, String> {
@@ -104,7 +110,60 @@ pub fn raw_query(app: &RawApp, contract: &Addr, doc: &str) -> Result<Value, Stri
     }
 }
 
-/// The specification's document as a serialisable value, for the chain's own `*_contract` operations.
-pub fn json_value(doc: &str) -> serde_json::Value {
-    serde_json::from_str(doc).expect("document rendered by the generator is JSON")
+/// The specification's document as a serialisable value, for the chain's own `*_contract` operations: the exact JSON tree
+/// (member order and the spelling of integers kept -- an integer wider than 64 bits stays an integer).
+#[derive(Debug)]
+pub struct ExactDoc(pub rt::XJ);
+
+impl serde::Serialize for ExactDoc {
+    fn serialize<S: serde::Serializer>(&self, ser: S) -> Result<S::Ok, S::Error> {
+        ser_xj(&self.0, ser)
+    }
+}
+
+struct XRef<'a>(&'a rt::XJ);
+impl serde::Serialize for XRef<'_> {
+    fn serialize<S: serde::Serializer>(&self, ser: S) -> Result<S::Ok, S::Error> {
+        ser_xj(self.0, ser)
+    }
+}
+
+fn ser_xj<S: serde::Serializer>(x: &rt::XJ, ser: S) -> Result<S::Ok, S::Error> {
+    use serde::ser::{Error, SerializeMap, SerializeSeq};
+    match x {
+        rt::XJ::Null => ser.serialize_unit(),
+        rt::XJ::Bool(b) => ser.serialize_bool(*b),
+        rt::XJ::Str(s) => ser.serialize_str(s),
+        rt::XJ::Num(n) => {
+            if let Ok(v) = n.parse::<u64>() {
+                ser.serialize_u64(v)
+            } else if let Ok(v) = n.parse::<i64>() {
+                ser.serialize_i64(v)
+            } else if let Ok(v) = n.parse::<u128>() {
+                ser.serialize_u128(v)
+            } else if let Ok(v) = n.parse::<i128>() {
+                ser.serialize_i128(v)
+            } else {
+                Err(S::Error::custom(format!("number {n} is not an integer the chain's encoder can write")))
+            }
+        }
+        rt::XJ::Arr(a) => {
+            let mut s = ser.serialize_seq(Some(a.len()))?;
+            for e in a {
+                s.serialize_element(&XRef(e))?;
+            }
+            s.end()
+        }
+        rt::XJ::Obj(o) => {
+            let mut m = ser.serialize_map(Some(o.len()))?;
+            for (k, v) in o {
+                m.serialize_entry(k, &XRef(v))?;
+            }
+            m.end()
+        }
+    }
+}
+
+pub fn json_value(doc: &str) -> ExactDoc {
+    ExactDoc(rt::parse_exact(doc).expect("document rendered by the generator is JSON"))
 }
